@@ -1,4 +1,5 @@
 import AcraModel.Basic.Bytes
+import AcraModel.Generated.KeystoreSec
 /-!
 # Concurrent key-store handles over one back end (v2 file-system key store)
 
@@ -93,15 +94,10 @@ def Ring.nextSeq (r : Ring) : Int :=
   | none => 1
   | some k => k.seq + 1
 
-/-- `api.KeyStateTransitionValid` (table checked against the source by `fact_transitions`) -/
+/-- `api.KeyStateTransitionValid`: the table regenerated from the source on every run
+(`Generated.KeystoreSec.transitions`; its expected content is `Props.C17.fact_transitions`) -/
 def transitionValid (old new : Nat) : Bool :=
-  match old with
-  | 1 => new == 2 || new == 4 || new == 5 || new == 6
-  | 2 => new == 3 || new == 4 || new == 5
-  | 3 => new == 2 || new == 4 || new == 5
-  | 4 => new == 5 || new == 6
-  | 5 => new == 6
-  | _ => false
+  ((Generated.KeystoreSec.transitions.lookup old).getD []).contains new
 
 /-- operations of `api.MutableKeyRing` (plus a pure re-read and the import overwrite) -/
 inductive Op where
